@@ -238,12 +238,21 @@ impl Harness for ChainH {
             cx.goal("trailing-unrelated-frame");
             frames.push(success_frame(99, 8, None));
         }
+        // C11 only: the peer may pad its replies with extra NUL bytes (a NUL where a message would
+        // start is padding to the connection; held data must survive that like anything else)
+        let pad = if self.hold { [0usize, 1, 3][cx.choose(3, "padding-after-every-reply:0|1|3")] } else { 0 };
+        if pad > 0 {
+            cx.goal("replies-padded-with-extra-NULs");
+        }
         let mut stream_bytes = Vec::new();
+        let mut own_ends: Vec<usize> = Vec::new();
         let mut cands: Vec<(usize, bool)> = vec![(0, false)]; // (position, inter-frame?)
         for (i, f) in frames.iter().enumerate() {
             let start = stream_bytes.len();
             stream_bytes.extend_from_slice(&f.bytes);
             stream_bytes.push(0);
+            own_ends.push(stream_bytes.len());
+            stream_bytes.extend(std::iter::repeat(0u8).take(pad));
             let end = stream_bytes.len();
             cands.push((start + 1, false));
             cands.push((start + f.bytes.len() / 2, false));
@@ -275,7 +284,7 @@ impl Harness for ChainH {
             let mut e = Vec::new();
             let mut p = 0;
             for f in &frames {
-                p += f.bytes.len() + 1;
+                p += f.bytes.len() + 1 + pad;
                 e.push(p);
             }
             e
@@ -351,6 +360,7 @@ impl Harness for ChainH {
             let mut task = Task::new();
             let mut items: Vec<zlink_core::Result<zlink_core::reply::Result<R<'_>, E<'_>>>> = Vec::new();
             let mut held: Vec<Held> = Vec::new();
+            let mut yields: Vec<(usize, usize, usize)> = Vec::new();
             let mut yielded = 0usize;
             let mut bad_seen = false;
             let mut gave_up = false;
@@ -426,7 +436,8 @@ impl Harness for ChainH {
                         cx.state(H64::new().u(yielded as u64).u(wire.0.borrow().consumed as u64).get());
                         if self.hold {
                             // first the items held so far …
-                            check_held(cx, &wire, &|i| borrowed(&items[i]).unwrap_or("").to_string(), &held, &frames, yielded, "chain")?;
+                            check_held(cx, &wire, &|i| borrowed(&items[i]).unwrap_or("").to_string(), &held, &frames, yielded, "chain", &yields)?;
+                            yields.push((wire.0.borrow().reads.len(), own_ends[yielded], wire.0.borrow().consumed));
                             // … then this one joins them
                             if let Some(s) = borrowed(&it) {
                                 let consumed = wire.0.borrow().consumed;
@@ -447,7 +458,7 @@ impl Harness for ChainH {
                 }
             }
             if self.hold {
-                check_held(cx, &wire, &|i| borrowed(&items[i]).unwrap_or("").to_string(), &held, &frames, yielded, "chain")?;
+                check_held(cx, &wire, &|i| borrowed(&items[i]).unwrap_or("").to_string(), &held, &frames, yielded, "chain", &yields)?;
             }
             Ok(gave_up)
         })();
@@ -484,7 +495,10 @@ impl Harness for ChainH {
     }
 }
 
-fn check_held(cx: &Ctx, wire: &Wire, current: &dyn Fn(usize) -> String, held: &[Held], frames: &[FrameSpec], now: usize, site_name: &str) -> Result<(), Verdict> {
+/// `yields`: for every item yielded so far (held or not) the number of transport reads that had
+/// happened by then, the stream offset at which its frame ends (its own NUL included), and how many
+/// bytes of the stream had been read from the transport by then.
+fn check_held(cx: &Ctx, wire: &Wire, current: &dyn Fn(usize) -> String, held: &[Held], frames: &[FrameSpec], now: usize, site_name: &str, yields: &[(usize, usize, usize)]) -> Result<(), Verdict> {
     let w = wire.0.borrow();
     for hd in held {
         let site = if hd.rest_already_read { "-with-no-new-data" } else { "" };
@@ -507,9 +521,18 @@ fn check_held(cx: &Ctx, wire: &Wire, current: &dyn Fn(usize) -> String, held: &[
             continue;
         }
         let mut overwritten = false;
-        for r in &w.reads[hd.reads_mark..] {
+        for (j, r) in w.reads.iter().enumerate().skip(hd.reads_mark) {
             if r.n > 0 && r.ptr < hd.ptr + hd.len && hd.ptr < r.ptr + r.n {
                 overwritten = true;
+                // The listed finding is a read that follows a rewind: the connection rewinds its
+                // cursors when it hands out the last message it has buffered, and every read from
+                // then on may land on items yielded before.  As long as every message handed out
+                // since the held one still had bytes buffered behind it (padding, the beginning of
+                // the next reply) there was no rewind, and a read can only reach the held item
+                // after a full buffer was reclaimed - anything else is a different defect.
+                let later_bytes_buffered = !yields.iter().skip(hd.idx).filter(|(nreads, _, _)| *nreads <= j).any(|(_, end, consumed)| *consumed <= *end);
+                let reclaimed = (hd.reads_mark.max(1)..=j).any(|q| w.reads[q - 1].n == w.reads[q - 1].cap && w.reads[q - 1].cap > 0);
+                let site = if later_bytes_buffered && !reclaimed && site.is_empty() { "-although-later-bytes-were-already-buffered" } else { site };
                 cx.soft_fail(
                     format!("borrow:{site_name}:held-item-overwritten-by-later-read{site}"),
                     format!(
@@ -577,11 +600,18 @@ impl Harness for ProxyStreamH {
             let size = self.sizes[cx.choose(self.sizes.len(), "reply:payload-size")];
             frames.push(success_frame(i as u32 + 1, size, Some(i + 1 < n)));
         }
+        let pad = [0usize, 1, 3][cx.choose(3, "padding-after-every-reply:0|1|3")];
+        if pad > 0 {
+            cx.goal("replies-padded-with-extra-NULs");
+        }
         let mut stream_bytes = Vec::new();
         let mut ends = Vec::new();
+        let mut own_ends = Vec::new();
         for f in &frames {
             stream_bytes.extend_from_slice(&f.bytes);
             stream_bytes.push(0);
+            own_ends.push(stream_bytes.len());
+            stream_bytes.extend(std::iter::repeat(0u8).take(pad));
             ends.push(stream_bytes.len());
         }
         // every subset of the inter-frame cuts
@@ -614,6 +644,7 @@ impl Harness for ProxyStreamH {
             let mut task = Task::new();
             let mut items: Vec<zlink_core::Result<Result<R<'_>, E<'_>>>> = Vec::new();
             let mut held: Vec<Held> = Vec::new();
+            let mut yields: Vec<(usize, usize, usize)> = Vec::new();
             let mut h = H64::new();
             let get = |items: &Vec<zlink_core::Result<Result<R<'_>, E<'_>>>>, i: usize| -> String {
                 match &items[i] {
@@ -647,13 +678,14 @@ impl Harness for ProxyStreamH {
                     return Err(Verdict::fail("proxy-stream:wrong-item", format!("item #{k}: {got}")));
                 }
                 h.s(&got);
-                check_held(cx, &wire, &|i| get(&items, i), &held, &frames, k, "proxy-stream")?;
+                check_held(cx, &wire, &|i| get(&items, i), &held, &frames, k, "proxy-stream", &yields)?;
+                yields.push((wire.0.borrow().reads.len(), own_ends[k], wire.0.borrow().consumed));
                 if let Ok(Ok(r)) = &it {
                     held.push(Held { idx: k, ptr: r.s.as_ptr() as usize, len: r.s.len(), copy: frames[k].payload.clone(), alloc_mark: alloclog::mark(), reads_mark: wire.0.borrow().reads.len(), rest_already_read: wire.0.borrow().consumed >= stream_bytes.len() });
                 }
                 items.push(it);
             }
-            check_held(cx, &wire, &|i| get(&items, i), &held, &frames, n, "proxy-stream")?;
+            check_held(cx, &wire, &|i| get(&items, i), &held, &frames, n, "proxy-stream", &yields)?;
             Ok(h.get())
         })();
         alloclog::stop();
@@ -843,12 +875,12 @@ pub fn run_c06(tier: Tier) -> i32 {
 
 pub fn run_c11(tier: Tier) -> i32 {
     let mut rep = Report::new("C11", tier.name());
-    rep.rule = "the C06 space (chains of <=3/4 calls, reply scripts, trailing frame, arrival chunkings) with the payload size of every reply a free choice from the size alphabet (sizes that fit the 256-byte buffer and sizes that force one or more growth steps) and EVERY yielded item held while all later ones are obtained. The harness's allocator always moves a block on realloc, so buffer growth deterministically releases the old block. Outcomes are distinct item sequences".into();
+    rep.rule = "the C06 space (chains of <=3/4 calls, reply scripts, trailing frame, arrival chunkings) with the payload size of every reply a free choice from the size alphabet (sizes that fit the 256-byte buffer and sizes that force one or more growth steps) and EVERY yielded item held while all later ones are obtained; the peer pads every reply with 0, 1 or 3 extra NUL bytes. The harness's allocator always moves a block on realloc, so buffer growth deterministically releases the old block. Outcomes are distinct item sequences".into();
     rep.assumptions = vec![
         "the allocator may move a block whenever it is grown (the harness's allocator always does)".into(),
         "a held &str is damaged if its memory was released, if a later transport read wrote over it, or if its content differs from the content it had when yielded; freed memory is never dereferenced by the harness".into(),
     ];
-    for g in ["item-held-across-a-later-read", "item-held-while-rest-is-buffered", "replies-in-separate-reads", "replies-coalesced-in-one-read", "more-call-with-continuing-replies"] {
+    for g in ["replies-padded-with-extra-NULs", "item-held-across-a-later-read", "item-held-while-rest-is-buffered", "replies-in-separate-reads", "replies-coalesced-in-one-read", "more-call-with-continuing-replies"] {
         rep.require_goal(g);
     }
     let wall = std::time::Duration::from_secs(tier.pick(60, 1500));
